@@ -14,7 +14,7 @@ from .header_parse import parse_header
 from .lexer import Lexer
 from .log import Logger
 from .datapack import DataPack
-from .exception import JMCBuildError
+from .exception import JMCBuildError, JMCSyntaxException
 
 import shutil
 
@@ -273,6 +273,33 @@ def post_process(string: str) -> str:
     return string
 
 
+def check_function_tag(datapack: DataPack, json_path: str, registered: str) -> None:
+    """
+    A JSON file defined at the path of a function tag that JMC writes replaces that tag
+    (`new tags.functions(minecraft.load)` under `#override minecraft`), it has to register JMC's function itself
+
+    :param datapack: DataPack object
+    :param json_path: Path of the function tag in datapack.jsons
+    :param registered: The function JMC registers in that tag
+    :raises JMCSyntaxException: The JSON file doesn't register the function
+    """
+    json = datapack.jsons.get(json_path)
+    if not json or "minecraft" not in Header().namespace_overrides:
+        return
+    values = json.get("values") if isinstance(json, dict) else None
+    if isinstance(values, list) and any(
+        registered in (value, value.get("id") if isinstance(value, dict) else None)
+        for value in values
+    ):
+        return
+    message = f"JSON({json_path}) replaces the function tag generated by JMC without registering {registered}"
+    suggestion = f'Add "{registered}" to its values, or call your functions from that function instead.'
+    if json_path not in datapack.defined_file_pos:
+        raise JMCBuildError(f"{message}\n{suggestion}")
+    token, tokenizer = datapack.defined_file_pos[json_path]
+    raise JMCSyntaxException(message, token, tokenizer, suggestion=suggestion)
+
+
 def build(
     datapack: DataPack,
     config: "Configuration",
@@ -299,6 +326,17 @@ def build(
 
     logger.debug(f"Building (_is_virtual={_is_virtual})")
     datapack.build()
+    check_function_tag(
+        datapack,
+        f"minecraft/tags/{function_folder}/load",
+        f"{config.namespace}:{DataPack.load_name}",
+    )
+    if datapack.functions.get(DataPack.tick_name):
+        check_function_tag(
+            datapack,
+            f"minecraft/tags/{function_folder}/tick",
+            f"{config.namespace}:{DataPack.tick_name}",
+        )
     header.finished_compiled_time = perf_counter()
     output_folder = Path(config.output)
     namespace_folder = output_folder / "data" / config.namespace
